@@ -68,7 +68,7 @@ Record nums (m : st) (s : spec) : Prop := {
   nu_dmin : d_min (s_db m) = s_min m \/ (s_min m = 0 /\ s_max m = 0 /\ d_min (s_db m) <= 1);
   (* the journal of the current height carries the running root *)
   nu_root : (s_max m = 0 /\ s_prev m = zero32) \/
-            (exists jn, aget (s_max m) (d_jnl (s_db m)) = Some jn /\ j_root jn = s_prev m)
+            (s_max m <> 0 /\ exists jn, aget (s_max m) (d_jnl (s_db m)) = Some jn /\ j_root jn = s_prev m)
 }.
 
 Record Sim (m : st) (s : spec) : Prop := {
